@@ -45,6 +45,14 @@ fn kinds() -> Vec<(&'static str, &'static str)> {
         ("fiber_run_by_a_fiber_and_handed_on", "var a = Fiber.new(|| { var hold = handed_on; var t = Fiber.new(|| [i]); t.call(); handed_on = t; }); a.call();"),
         // closures made at every level of a recursion; only the innermost one survives the call
         ("closure_from_the_bottom_of_a_recursion", "fn rec(d) { var big = [d, [d]]; var c = || big; if d == 0 { return c; } return rec(d - 1); } var a = rec(i % 40);"),
+        // exceptions carrying objects: caught, re-thrown through a finally block, and given up because the
+        // finally block is left by continue / break (the thrown object and the value of a return that was
+        // waiting are garbage from then on)
+        ("caught_throw_of_an_object", "var a = nil; try { throw [i, [i]]; } catch e { a = e; }"),
+        ("throw_through_finally_then_caught", "var a = nil; try { try { throw [i, [i]]; } finally { a = [i]; } } catch e { a = e; }"),
+        ("throw_given_up_by_continue_in_finally", "var a = [i]; for k in 0..2 { try { throw [a, [k]]; } finally { continue; } }"),
+        ("throw_given_up_by_break_in_finally", "var a = [i]; while true { try { throw [a, [i]]; } finally { break; } }"),
+        ("return_given_up_by_break_in_finally", "fn giveup() { for k in 0..2 { try { return [i, [k]]; } finally { break; } } return [i]; } var a = giveup();"),
     ]
 }
 
@@ -59,7 +67,8 @@ fn live_shapes() -> Vec<(&'static str, &'static str, &'static str)> {
 
 struct Prog {
     describe: String,
-    make: Box<dyn Fn(usize) -> String + Send + Sync>,
+    /// (iterations, statement appended to the loop body)
+    make: Box<dyn Fn(usize, &str) -> String + Send + Sync>,
 }
 
 fn programs(thorough: bool) -> Vec<Prog> {
@@ -88,7 +97,7 @@ fn programs(thorough: bool) -> Vec<Prog> {
             let d = format!("body={} live={}", bname, lname);
             out.push(Prog {
                 describe: d,
-                make: Box::new(move |n| format!("{}\n{}\nfor i in 0..{} {{ {} }}\nprint(\"done\");\n", PRELUDE, setup, n, body)),
+                make: Box::new(move |n, extra| format!("{}\n{}\nfor i in 0..{} {{ {} {} }}\nprint(\"done\");\n", PRELUDE, setup, n, body, extra)),
             });
         }
     }
@@ -96,7 +105,7 @@ fn programs(thorough: bool) -> Vec<Prog> {
 }
 
 fn run_prog(runner: &mut Runner, src: &str, want: &[&str], drop_stats: bool) -> Obs {
-    let mut req = Request { op: "run".into(), snippets: vec![src.to_string()], fuel: Some(200_000_000), want: want.iter().map(|s| s.to_string()).collect(), drop_vm_stats: drop_stats, ..Default::default() };
+    let mut req = Request { op: "run".into(), snippets: vec![src.to_string()], natives: vec!["heap_probe".into()], fuel: Some(200_000_000), want: want.iter().map(|s| s.to_string()).collect(), drop_vm_stats: drop_stats, ..Default::default() };
     runner.call(&mut req)
 }
 
@@ -187,7 +196,9 @@ struct Acc {
 pub fn run(ctx: &Ctx) -> Report {
     let mut report = Report::new();
     let thorough = ctx.thorough();
-    let (n1, n2) = if thorough { (2000usize, 4000usize) } else { (600usize, 1200usize) };
+    // (n2 - n1 is a multiple of every period a loop body uses - 3, 4, 40 - so that the two probes inside
+    // the loop see it in the same phase)
+    let (n1, n2) = if thorough { (2400usize, 4800usize) } else { (600usize, 1200usize) };
     let progs = programs(thorough);
     let n_progs = progs.len();
     // baseline: what a fresh interpreter leaves behind when dropped
@@ -198,12 +209,18 @@ pub fn run(ctx: &Ctx) -> Report {
             _ => crate::pool::machinery_failure("C16: the optimised runner did not answer"),
         }
     };
+    let nondeterministic = std::sync::atomic::AtomicUsize::new(0);
     let accs = par_map(&ctx.runner_opt, ctx.workers, progs.into_iter().enumerate(), |runner, _i, (idx, p)| {
+      // a failing program is judged a second time: only what fails both times is reported, a program that
+      // fails once and passes once is a machinery failure (no verdict)
+      let judge_once = |runner: &mut Runner| -> Acc {
         runner.timeout = std::time::Duration::from_secs(120);
         let mut acc = Acc::default();
         acc.programs += 1;
-        let src1 = (p.make)(n1);
-        let src2 = (p.make)(n2);
+        let src1 = (p.make)(n1, "");
+        // the longer run collects and counts what is alive at the end of iteration n1 and of iteration n2,
+        // while the loop is still running
+        let src2 = (p.make)(n2, &format!("if i == {} {{ heap_probe(); }} if i == {} {{ heap_probe(); }}", n1 - 1, n2 - 1));
         let fail = |acc: &mut Acc, what: String, src: &str| {
             acc.violations.push((format!("[{}] {}", p.describe, what), json!({"program": p.describe, "request": {"op": "run", "snippets": [src], "want": ["alloc_log", "gc_then_heap"]}, "problem": what})));
         };
@@ -249,13 +266,41 @@ pub fn run(ctx: &Ctx) -> Report {
             fail(&mut acc, format!("run with twice the iterations ended in {}", o2.describe()), &src2);
             return acc;
         };
+        if !matches!(r2.results.get(0).map(|x| &x.outcome), Some(proto::Outcome::Ok)) {
+            fail(&mut acc, format!("the run with twice the iterations did not end normally: {:?}", r2.results.get(0)), &src2);
+            return acc;
+        }
+        if r2.probes.len() != 2 {
+            crate::pool::machinery_failure(&format!("C16: {} heap probes came back, expected 2", r2.probes.len()));
+        }
+        let (pa, pb) = (non_retained(&r2.probes[0]), non_retained(&r2.probes[1]));
+        if pa != pb {
+            fail(&mut acc, format!("inside the loop, after a collection at the end of iteration {} these objects are alive: {:?}; at the end of iteration {}: {:?}", n1, pa, n2, pb), &src2);
+        }
         let h2 = r2.heap.clone().unwrap_or_default();
         let (a, b) = (non_retained(&h1), non_retained(&h2));
         if a != b {
             fail(&mut acc, format!("live objects after {} iterations {:?} differ from those after {} iterations {:?}", n1, a, n2, b), &src2);
         }
         acc
+      };
+      let first = judge_once(runner);
+      if first.violations.is_empty() {
+          return first;
+      }
+      let second = judge_once(runner);
+      if second.violations.is_empty() {
+          nondeterministic.fetch_add(1, std::sync::atomic::Ordering::Relaxed);
+          return second;
+      }
+      first
     });
+    // (a program that fails once and passes once gives no verdict by itself; when other programs fail
+    // both times the run has its verdict from them - a collector whose pacing depends on what the process
+    // did before behaves exactly like this)
+    if nondeterministic.load(std::sync::atomic::Ordering::Relaxed) > 0 && accs.iter().all(|a| a.violations.is_empty()) {
+        crate::pool::machinery_failure(&format!("C16: {} programs failed once and passed when run again: the harness does not own all nondeterminism", nondeterministic.load(std::sync::atomic::Ordering::Relaxed)));
+    }
     // what is left behind must not depend on how deep the recursion was that produced the one value kept:
     // the same program with the escaping closure made at depth 0 / 1 / 7 / 39 of a recursion in which
     // every level makes a closure over a local of its own
@@ -304,7 +349,7 @@ pub fn run(ctx: &Ctx) -> Report {
     report.cov("traces_validated_against_impl", json!(acc.events));
     report.cov("distinct_nontrivial", json!(n_progs));
     report.cov("exhaustive", json!(true));
-    report.cov("rule", json!("every loop program `for i in 0..n { body }` whose body is a multiset of one or two (three in the thorough tier) of 22 allocation kinds, crossed with three live-set shapes (nothing kept, a ring of the last 4, a map under a rotating key), run in the optimised build: at every allocation event and every collection of the log the monitor checks (1) no allocation at or above the threshold without a collection, heap <= max(2 x survivors, 64 KiB) + that allocation; (2) threshold after a collection = 2 x survivors, a collection never grows the heap, accounting continuous between events; (3) a collection only when the threshold in effect was reached; at the end bytes_allocated = sum of live object sizes; after dropping the interpreter exactly a fresh interpreter's residue remains; n and 2n iterations leave the same live objects by type (interned strings and compiled code excluded); the objects left behind by keeping the closure from the bottom of a recursion do not depend on its depth (0, 1, 7, 39)."));
+    report.cov("rule", json!("every loop program `for i in 0..n { body }` whose body is a multiset of one or two (three in the thorough tier) of 27 allocation kinds (incl. thrown objects caught, re-thrown through finally blocks, and given up because a finally block is left by break / continue), crossed with three live-set shapes (nothing kept, a ring of the last 4, a map under a rotating key), run in the optimised build: at every allocation event and every collection of the log the monitor checks (1) no allocation at or above the threshold without a collection, heap <= max(2 x survivors, 64 KiB) + that allocation; (2) threshold after a collection = 2 x survivors, a collection never grows the heap, accounting continuous between events; (3) a collection only when the threshold in effect was reached; at the end bytes_allocated = sum of live object sizes; after dropping the interpreter exactly a fresh interpreter's residue remains; n and 2n iterations leave the same live objects by type (interned strings and compiled code excluded), and so do two collections forced from inside the running loop at the end of iteration n and of iteration 2n; the objects left behind by keeping the closure from the bottom of a recursion do not depend on its depth (0, 1, 7, 39)."));
     report.cov("bounds", json!({"iterations": [n1, n2], "kinds": kinds().len(), "live_set_shapes": 3}));
     report.cov("programs", json!(n_progs));
     report.cov("allocation_events_checked", json!(acc.events));
